@@ -451,12 +451,16 @@ func everyPathTo(in ssa.Instruction, accept func(conds []fact) bool) (ok, decide
 
 // everyUnitPathTo: like everyPathTo, over the paths of root with its private helpers inlined (in may sit in a helper).
 func everyUnitPathTo(root *ssa.Function, in ssa.Instruction, accept func(conds []fact) bool) (ok, decided bool) {
+	flatOK, flatDecided := false, false
 	if in.Parent() == root {
-		return everyPathTo(in, accept)
+		flatOK, flatDecided = everyPathTo(in, accept)
+		if flatOK && flatDecided {
+			return true, true
+		}
 	}
 	ps, pok := enumPathsU(root, 4000)
 	if !pok {
-		return false, false
+		return flatOK, flatDecided
 	}
 	found := false
 	for i := range ps {
@@ -466,16 +470,33 @@ func everyUnitPathTo(root *ssa.Function, in ssa.Instruction, accept func(conds [
 			continue
 		}
 		found = true
+		// the conditions as seen on the path: a test of a helper's result is the test of the value the helper
+		// returned on this path (if l.filteredOut(buf): filter != nil && !filter(buf))
+		var conds []fact
 		n := 0
-		for _, x := range p.Instrs[:idx] {
+		for j, x := range p.Instrs[:idx] {
 			if _, isIf := x.(*ssa.If); isIf {
+				if n < len(p.Conds) {
+					ft := p.Conds[n]
+					cv, val := ft.Cond, ft.Val
+					for k := 0; k < 6; k++ {
+						r := p.valueAt(cv, j)
+						if u, isU := r.(*ssa.UnOp); isU && u.Op == token.NOT {
+							cv, val = u.X, !val
+							continue
+						}
+						cv = r
+						break
+					}
+					conds = append(conds, fact{Cond: cv, Val: val, If: ft.If})
+					if cv != ft.Cond {
+						conds = append(conds, ft)
+					}
+				}
 				n++
 			}
 		}
-		if n > len(p.Conds) {
-			n = len(p.Conds)
-		}
-		if !accept(p.Conds[:n]) {
+		if !accept(conds) {
 			return false, true
 		}
 	}
@@ -496,6 +517,32 @@ func hasFactRec(in ssa.Instruction, pred func(f fact) bool, depth int) bool {
 			all := true
 			for _, r := range rets {
 				if !hasFactRec(r, pred, depth+1+4) { // +4: do not climb back to the call sites from inside the helper
+					all = false
+					break
+				}
+			}
+			if all {
+				return true
+			}
+		}
+	}
+	// a boolean helper that returns a combination (return ok && accepting): with the result known, every leaf of
+	// the returned value that can produce it carries its own edge facts, and the leaf itself has that value
+	for _, f := range gs {
+		if depth > 3 {
+			break
+		}
+		if leaves := helperBoolLeafFacts(f); len(leaves) > 0 {
+			all := true
+			for _, lf := range leaves {
+				one := false
+				for _, x := range lf {
+					if pred(x) {
+						one = true
+						break
+					}
+				}
+				if !one {
 					all = false
 					break
 				}
@@ -1070,6 +1117,69 @@ func helperResultFact(f fact) (*ssa.Call, []ssa.Instruction) {
 		}
 	}
 	return call, rets
+}
+
+// allFactsAt: the guard facts of in, what they imply about a boolean helper's operands when only one leaf of the
+// helper's result is compatible, and - for an instruction of a private helper with a single call site - the facts
+// holding at that call site.
+func allFactsAt(in ssa.Instruction, depth int) []fact {
+	gs := append([]fact{}, guardsOfBlock(in.Block())...)
+	for _, f := range append([]fact{}, gs...) {
+		if lf := helperBoolLeafFacts(f); len(lf) == 1 {
+			gs = append(gs, lf[0]...)
+		}
+	}
+	fn := in.Parent()
+	if depth < 3 && isPrivateHelper(fn) {
+		if sites := curSites.sites[fn]; len(sites) == 1 {
+			gs = append(gs, allFactsAt(sites[0], depth+1)...)
+		}
+	}
+	return gs
+}
+
+// helperBoolLeafFacts: for a fact on the boolean result of a private helper, what is known for each leaf of the
+// returned values that is compatible with it: the facts of the edge on which the leaf is chosen, the guards of
+// the return, and the leaf's own value.
+func helperBoolLeafFacts(f fact) [][]fact {
+	c, v := f.Cond, f.Val
+	for i := 0; i < 8; i++ {
+		if u, ok := c.(*ssa.UnOp); ok && u.Op == token.NOT {
+			c, v = u.X, !v
+			continue
+		}
+		break
+	}
+	call, ok := c.(*ssa.Call)
+	if !ok {
+		return nil
+	}
+	h := helperCallee(call)
+	if h == nil || h.Signature.Results().Len() != 1 || !isBoolType(h.Signature.Results().At(0).Type()) {
+		return nil
+	}
+	var out [][]fact
+	for _, ret := range findInstrs(h, isReturn) {
+		if h.Recover != nil && ret.Block() == h.Recover {
+			continue
+		}
+		for _, rv := range retValAt(ret.(*ssa.Return), 0) {
+			for _, lf := range phiLeavesWithPred(rv) {
+				if isConstBool(lf.v, !v) {
+					continue
+				}
+				facts := append([]fact{}, guardsOfBlock(ret.Block())...)
+				if lf.pred != nil {
+					facts = append(facts, lf.edgeFacts()...)
+				}
+				if _, isC := lf.v.(*ssa.Const); !isC {
+					facts = append(facts, fact{Cond: lf.v, Val: v})
+				}
+				out = append(out, facts)
+			}
+		}
+	}
+	return out
 }
 
 // originAt: like origin, and a result of a private helper with several returns is the value of the only
